@@ -40,6 +40,8 @@ def run(ck):
     ck.allow_truncation = True   # blocking / spinning paths may exhaust the step budget under unfair schedules
     # the wake-up protocols: lost wake-ups are states of the models (Stuck / NoLostWakeup / PromptPoll / AtDeadline)
     ck.mc("Retry", "Retry.mc.cfg", timeout=3000)
+    ck.mc("Retry", "Retry.mc3.cfg", timeout=3000)       # two submissions, a cancel at the end of an attempt: the stopped
+    #                                                     job is finalised at once whatever the other one waits for
     ck.mc("Timeout", "Timeout.mc.cfg", timeout=3000)
     ck.mc("Poll", "Poll.mc.cfg", timeout=3000)
     ck.mc("WorkerLoop", "WorkerLoop.mc.cfg", timeout=3000)
